@@ -213,3 +213,222 @@ class LockOracle(Observer):
         # lock-table hygiene is a probe, not an oracle (DESIGN C08 don't-care)
         if _mem._array_counter:
             w.probe("c08.table_entries_left_at_quiescence")
+
+
+# ======================================================================================
+# numeric policy (DESIGN 2.6)
+# ======================================================================================
+_EPS_FACTOR = {"float64": 1e5, "float32": 2e3, "float16": 64}
+
+
+def close(actual, expected, exact, scale=1.0, dtype=None):
+    """comparison of a MyGrad gradient/value with the model's float64 expectation"""
+    a = np.asarray(actual)
+    e = np.asarray(expected)
+    if a.shape != e.shape:
+        return False
+    if a.size == 0:
+        return True
+    if not np.all(np.isfinite(e)):
+        return True  # the model itself left the finite domain: nothing asserted
+    if exact and a.dtype == np.float64:
+        return bool(np.array_equal(a, e))
+    dt_ = np.dtype(dtype or a.dtype)
+    if dt_.kind != "f":
+        return bool(np.array_equal(a, e))
+    eps = float(np.finfo(dt_).eps)
+    tol = eps * _EPS_FACTOR.get(dt_.name, 1e5)
+    a64 = a.astype(np.float64)
+    return bool(np.all(np.abs(a64 - e) <= tol * (scale + np.abs(e))))
+
+
+class GradOracle(Observer):
+    """after every successful backward(): every caller-held tensor's .grad equals the M2 expectation
+    (owners: total cotangent of the current version; views: the view of the owner's gradient;
+    constants: None; tensors L does not depend on: unchanged).  Used by C01/C05/C07/C10."""
+
+    def __init__(self, prop, judge_keep=True, name=None):
+        self.prop = prop
+        self.judge_keep = judge_keep
+        self.name = name or prop
+
+    def after(self, w, ev, out):
+        if ev["k"] != "backward":
+            return
+        rec = w.last_backward
+        if rec is None or rec.get("h") != ev["tgt"]:
+            return
+        if out.status == "unexp":
+            if not rec.get("tainted") and rec.get("expected") is not None and not w.grad_poisoned:
+                w.violation(
+                    self.prop,
+                    f"{self.name}.backward_raised",
+                    f"step {w.nstep}: backward() on a fully recorded graph raised {out.exc}: {out.msg[:200]}",
+                    tag=f"{self.name}.backward_raised/{out.exc}",
+                )
+            return
+        if out.status == "fail" and out.exc == "InvalidBackprop":
+            if rec.get("expected") is not None and not rec.get("tainted") and not w.grad_poisoned:
+                w.violation(
+                    self.prop,
+                    f"{self.name}.invalid_backprop_on_intact_graph",
+                    f"step {w.nstep}: backward() raised InvalidBackprop although no part of the graph had been cleared",
+                    tag=f"{self.name}.invalid_backprop_on_intact_graph",
+                )
+            return
+        if out.status != "ok" or not rec.get("tracking"):
+            return
+        exp = rec.get("expected")
+        if exp is None:
+            w.count("grad.unjudged.model")
+            return
+        if rec.get("tainted"):
+            w.count("grad.unjudged.tainted")
+            return
+        if w.grad_poisoned:
+            w.count("grad.unjudged.poisoned")
+            return
+        w.probe("grad.judged_backward")
+        values_ok = not (rec.get("nondiff") or rec.get("opaque"))
+        if not values_ok:
+            w.count("grad.values_unjudged.nondiff_or_opaque")
+        scale = rec.get("scale", 1.0)
+        for k, t in w.T.items():
+            e = exp.get(k)
+            if e is None:
+                continue
+            g = t.grad
+            i = w.info[k]
+            role = "view" if (k in rec["pre_ids"]) else "owner"
+            if e[0] == "none":
+                if g is not None:
+                    w.violation(
+                        self.prop,
+                        f"{self.name}.grad_on_constant" if i.const else f"{self.name}.unexpected_grad",
+                        f"step {w.nstep}: handle {k} ({'constant' if i.const else 'non-constant'} {role}) has a gradient {np.asarray(g).tolist()!r:.120} where none is expected",
+                        tag=f"{self.name}.{'grad_on_constant' if i.const else 'unexpected_grad'}/{role}",
+                    )
+                    return
+            elif e[0] == "keep":
+                if not self.judge_keep:
+                    continue
+                pre = rec["pre_grads"].get(k)
+                same = (g is None and pre is None) or (g is not None and pre is not None and np.asarray(g).tobytes() == pre[1] and np.asarray(g).shape == pre[3])
+                if not same:
+                    w.violation(
+                        self.prop,
+                        f"{self.name}.bystander_changed",
+                        f"step {w.nstep}: handle {k} ({role}) is not upstream of the terminal but its gradient changed",
+                        tag=f"{self.name}.bystander_changed/{role}",
+                    )
+                    return
+            else:
+                if g is None:
+                    w.violation(
+                        self.prop,
+                        f"{self.name}.missing_grad",
+                        f"step {w.nstep}: handle {k} ({role}) is a non-constant tensor the terminal depends on but .grad is None",
+                        tag=f"{self.name}.missing_grad/{role}",
+                    )
+                    return
+                if not values_ok:
+                    continue
+                ga = np.asarray(g)
+                if ga.shape != e[1].shape or not close(ga, e[1], w.exact, scale):
+                    w.violation(
+                        self.prop,
+                        f"{self.name}.wrong_grad",
+                        f"step {w.nstep}: handle {k} ({role}) grad={ga.tolist()!r:.200} expected={np.asarray(e[1]).tolist()!r:.200}",
+                        tag=f"{self.name}.wrong_grad/{role}",
+                    )
+                    return
+                w.probe("grad.value_ok")
+            del g
+
+
+# ======================================================================================
+# C04 - views and in-place updates mirror NumPy (M1)
+# ======================================================================================
+def _bytes_equal(a, b):
+    a = np.asarray(a)
+    b = np.asarray(b)
+    if a.shape != b.shape or a.dtype != b.dtype:
+        return False
+    return bool(np.array_equal(a, b, equal_nan=True)) if a.dtype.kind == "f" else bool(np.array_equal(a, b))
+
+
+class ValueOracle(Observer):
+    """after every statement, every judged handle (family entirely created in the current epoch):
+    value/dtype/shape = shadow, pairwise sharing = shadows', .base = owner, identity, constant."""
+
+    def __init__(self, prop="C04"):
+        self.prop = prop
+
+    def after(self, w, ev, out):
+        k = ev["k"]
+        hs = [h for h in w.T if w.judged04(h)]
+        if not hs:
+            return
+        if out.status == "unexp" and k in ("op", "inplace", "setshape"):
+            tgt = ev.get("tgt")
+            srcs = [r["t"] for r in ev.get("args", []) if "t" in r] + ([tgt] if tgt is not None else [])
+            if srcs and all(w.judged04(x) for x in srcs if x in w.T) and w.tracking:
+                w.violation(
+                    self.prop,
+                    "C04.statement_raised",
+                    f"step {w.nstep}: a statement NumPy accepts raised {out.exc} inside one epoch: {out.msg[:160]}",
+                    tag=f"C04.statement_raised/{out.exc}/{k}:{ev.get('form') or ev.get('op') or ''}",
+                )
+            return
+        evt = k + (":" + (ev.get("form") or ev.get("op") or "")) if k in ("op", "inplace", "setshape") else k
+        for h in hs:
+            t = w.T[h]
+            s = w.S[h]
+            i = w.info[h]
+            if i.ref() is not t:
+                w.violation(self.prop, "C04.identity", f"step {w.nstep}: handle {h} no longer refers to the same object")
+                return
+            d = t.data
+            if d.shape != s.shape or d.dtype != s.dtype:
+                if w.violation(self.prop, "C04.shape_dtype", f"step {w.nstep} ({evt}): handle {h} has shape/dtype {d.shape}/{d.dtype}, NumPy gives {s.shape}/{s.dtype}", tag=f"C04.shape_dtype/{evt}"):
+                    return
+                continue
+            if not _bytes_equal(d, s):
+                if w.violation(self.prop, "C04.value", f"step {w.nstep} ({evt}): handle {h} holds {d.tolist()!r:.160}, NumPy gives {s.tolist()!r:.160}", tag=f"C04.value/{evt}"):
+                    return
+                continue
+            if t.constant is not i.const:
+                if w.violation(self.prop, "C04.constant_flag", f"step {w.nstep} ({evt}): handle {h} constant={t.constant}, expected {i.const}", tag=f"C04.constant_flag/{evt}"):
+                    return
+            # base
+            b = t.base
+            if i.ids is None:
+                if b is not None:
+                    if w.violation(self.prop, "C04.base", f"step {w.nstep} ({evt}): handle {h} owns its memory but .base is not None", tag=f"C04.base/owner_has_base/{evt}"):
+                        return
+            else:
+                o = i.fam.owner_ref() if i.fam.owner_ref is not None else None
+                if b is None or (o is not None and b is not o):
+                    if d.size > 0:
+                        if w.violation(self.prop, "C04.base", f"step {w.nstep} ({evt}): handle {h} is a view but .base is {'None' if b is None else 'a different tensor'}", tag=f"C04.base/view_wrong_base/{evt}"):
+                            return
+            del b
+        # pairwise sharing
+        n = len(hs)
+        for x in range(n):
+            for y in range(x + 1, n):
+                a, b = hs[x], hs[y]
+                da, db = w.T[a].data, w.T[b].data
+                if da.size == 0 or db.size == 0:
+                    continue
+                real = np.shares_memory(da, db)
+                shad = np.shares_memory(w.S[a], w.S[b])
+                if real != shad:
+                    if w.violation(
+                        self.prop,
+                        "C04.sharing",
+                        f"step {w.nstep} ({evt}): handles {a},{b} share memory={real} but the NumPy arrays share={shad}",
+                        tag=f"C04.sharing/{'missing' if shad else 'spurious'}/{evt}",
+                    ):
+                        return
+        w.probe("c04.checked_events")
